@@ -125,10 +125,11 @@ pub fn handles_case(d: &[u8]) -> Result<(), String> {
         let embedded = if which % 8 == 0 { Some(b.u16()) } else { None };
         let mut script = vec![];
         while b.left() >= 3 && script.len() < 40 {
-            script.push(match b.u8() % 12 {
+            script.push(match b.u8() % 13 {
                 0..=5 => ROp::Read(b.u8(), b.u16()),
                 6..=9 => ROp::Seek(whence(&mut b), off(&mut b)),
                 10 => ROp::ReadToEnd(b.u8()),
+                11 => ROp::Drain(b.u8()),
                 _ => ROp::ReadExact(b.u8(), b.u16()),
             });
         }
